@@ -147,6 +147,8 @@ func runC15(r *Run) {
 			}
 			if second {
 				r.S.Sleep(3 * time.Second) // after the stall and after the first round has failed
+				// (all second-round actors wake at the same instant: who goes first is the scheduler's choice, not the runtime's)
+				r.S.Park("a." + pc.name + ".go")
 			}
 			ctx, cancel := context.WithTimeout(bg, pc.timeout)
 			defer cancel()
